@@ -35,6 +35,11 @@ def cmd_check(pid, tier, seed):
     except HarnessError as e:
         print(f"HARNESS-ERROR property={pid} {e}")
         return 2
+    except Exception as e:  # noqa: BLE001  (a crash of the machinery is never a verdict on the property)
+        import traceback
+        traceback.print_exc()
+        print(f"HARNESS-ERROR property={pid} the check itself failed: {type(e).__name__}: {e}")
+        return 2
     finally:
         explore.close_pool()
     known, k, n = findings.triage(pid, res.failures)
